@@ -267,6 +267,27 @@ def precision(ctx):
     kinds.check_who_may(ctx, "C15.P", "caller of get_clock_mut", roots(ES + "get_clock_mut"), set(GET_MUT_CALLERS))
     # a task's clock is never replaced wholesale after construction (only grown through update / increment)
     repl = {k: v for k, v in w.items() if any(kind in ("assign", "call_dst") for _, _, kind in v) and k not in ctors}
+    # an atomic variable's clock accumulates every writer (a later read is ordered after ALL earlier writes, not only after the one whose
+    # value it observes): it is opened for mutation only to create it once and to merge a writer into it
+    AC = "shuttle_std::sync::atomic::Atomic.clock"
+    mut_re = re.compile(r"cell::RefCell<.*>::(borrow_mut|try_borrow_mut|replace|replace_with|take|swap|get_mut|into_inner|set)$|cell::RefCell::(borrow_mut|try_borrow_mut|replace|replace_with|take|swap|get_mut|into_inner|set)$")
+    openers = {}
+    from rules.c18 import _calls_on_field
+    for b in prog.all_bodies({"shuttle_std"}):
+        for s, t in _calls_on_field(prog, b, AC, mut_re):
+            openers.setdefault(kinds.root_fn(prog, b.nkey), (b, s))
+    A = "shuttle_std::sync::atomic::Atomic::"
+    kinds.check_who_may(ctx, "C15.P", "function opening an atomic's clock for mutation", set(openers), {A + "init_clock", A + "inhale_clock"},
+                        {k: v[0].loc(v[1]) for k, v in openers.items()}, required={A + "inhale_clock"})
+    for k, (b, s) in sorted(openers.items()):
+        # what is done through the mutable borrow: get_or_insert (creation) / as_mut + VectorClock::update (merge) only
+        fam = [x for x in prog.all_bodies({"shuttle_std"}) if kinds.root_fn(prog, x.nkey) == k]
+        used = {c for x in fam for _, t in x.calls() for c in x.callees_of_call(t, passed=False) if "option::Option" in c and "VectorClock" in str(t.get("args", "")) or
+                c.startswith("core::option::Option") and c.split("::")[-1] in ("take", "replace", "insert", "get_or_insert", "get_or_insert_with", "as_mut", "unwrap", "expect")}
+        bad = sorted(c for c in used if c.split("::")[-1] in ("take", "replace", "insert"))
+        ctx.ob("C15.P", "atomic-clock-only-grows|" + k, not bad,
+               "`%s` only creates the atomic's clock or merges into it" % k if not bad else "`%s` can discard the atomic's clock (%s): earlier writers are forgotten" % (k, bad[0]),
+               loc=b.loc(s))
     ctx.ob("C15.P", "clock-never-replaced", not repl, "Task.clock is never assigned as a whole outside Task's constructors (each task's own clock only grows)" if not repl else
            "Task.clock is overwritten in %s: a task's clock could shrink" % sorted(repl), loc=None)
 
